@@ -17,7 +17,7 @@ func init() {
 	property("C12",
 		"Static conformance of poryswitch selection: (a) every selector returns, for each case map, the entry under the -s value when that key is present and otherwise the entry under '_' (presence decided by the comma-ok bit, not by the value), parallel maps with the same key sequence, and fails under enableEnvironmentErrors when neither exists; (b) the header takes the value from compileSwitches[identifier] and errors for missing switches only under enableEnvironmentErrors; (c) parsing the cases can write only the token window, the scope stacks and the font cache of the Parser — nothing an unselected case produced can reach the program except through the case map; (d) '-s K=V' splits at the first '='.",
 		[]string{"scheme argument of DESIGN §4 C12", "balanced scope stacks (C20.a)"},
-		"C12.a", "C12.b", "C12.c", "C12.d", "C12.e", "C09.d", "C06.c", "C12.f", "C12.g", "C01.h")
+		"C12.a", "C12.b", "C12.c", "C12.d", "C12.e", "C09.d", "C06.c", "C12.f", "C12.g", "C01.h", "C17.f")
 	property("C13",
 		"Static conformance of constant substitution: (a) every token literal that is accumulated into an argument, operand, comparison value, case value, table-entry field, mart item or constant value passes through tryReplaceWithConstant (the only exceptions are literal parentheses); (b) names (identifiers, labels, map script names, movement steps) and text are never passed through it; (c) a constant is stored only after the duplicate check, its value is scanned up to the next top-level keyword; (d) the helper is a pure lookup that returns its argument when the name is not a constant.",
 		[]string{"that textual and token-wise replacement coincide for multi-token values is not decided"},
